@@ -53,18 +53,21 @@ def LockOut (tbl : Table) (fs : FlagMap) (inpW : Bytes) (δ : Nat) (K : Nat → 
    | a, b => SigRel δ 0 a b)
 
 /-- what the split run's sink has received in a breaking step: nothing, or one text lexeme (`eoc` arm) -/
-def SinkBrk (ops : SinkOps κ) (inpS : Bytes) (d d' : Nat) (x0 : Ctx κ) (sink' : κ) : Prop :=
-  (d' = d ∧ sink' = x0.sink) ∨
-  ∃ a e tt, a < e ∧ d' = d + (e - a) ∧
-    ops.handleNonTag inpS ⟨x0.prevConsumed, ⟨a, e⟩, some (.text tt)⟩ x0.sink = (sink', .ok ())
+def SinkBrk (ops : SinkOps κ) (Loc : κ → Nat → Nat → TextType → Prop) (inpS : Bytes) (d d' : Nat) (x0 : Ctx κ) (sink' : κ)
+    (c : Nat) (tt : TextType) : Prop :=
+  (d' = d ∧ sink' = x0.sink ∧ (0 < d → Loc x0.sink x0.prevConsumed c tt)) ∨
+  ∃ a, a < c ∧ d' = d + (c - a) ∧
+    ops.handleNonTag inpS ⟨x0.prevConsumed, ⟨a, c⟩, some (.text tt)⟩ x0.sink = (sink', .ok ()) ∧
+    (0 < d → Loc x0.sink x0.prevConsumed a tt)
 
 /-- the split run broke at the end of its input; `mw0` is the whole machine before the step (after its
 enter actions); `x0`: the split machine's context after its enter actions -/
-def BreakOut (tbl : Table) (fs : FlagMap) (ops : SinkOps κ) (inpS inpW : Bytes) (δ d : Nat)
+def BreakOut (tbl : Table) (fs : FlagMap) (ops : SinkOps κ) (Loc : κ → Nat → Nat → TextType → Prop) (inpS inpW : Bytes) (δ d : Nat)
     (x0 : Ctx κ) (mw0 : M κ) (rs : M κ × Option Signal) : Prop :=
   SPanic rs.2 ∨ ∃ c d' skip', rs.2 = some (.endOfInput c) ∧
     BCore tbl fs inpW (δ + c) d' skip' rs.1 mw0 ∧
-    rs.1.x.sim = x0.sim ∧ rs.1.x.prevConsumed = x0.prevConsumed ∧ SinkBrk ops inpS d d' x0 rs.1.x.sink
+    rs.1.x.sim = x0.sim ∧ rs.1.x.prevConsumed = x0.prevConsumed ∧
+    SinkBrk ops Loc inpS d d' x0 rs.1.x.sink c rs.1.c.lastTextType ∧ lexStart rs.1.r = 0
 
 theorem MRel.toBreakRel {δ d skip : Nat} {ab : Ab} {sm : SeqMode} {ms mw : M κ} (h : MRel δ d skip ab sm ms mw) :
     BreakRel δ d skip ab sm ms mw := ⟨h.c, h.r, h.sim⟩
@@ -339,6 +342,25 @@ theorem chSeqOf_none_of_rel {δ d skip : Nat} {ab : Ab} {ms mw : M κ} (h : MRel
   · exact hr.elim
   · exact hr.2.2
 
+/-- what a (non-last) break returns -/
+theorem break_facts (inp : Bytes) (m : M κ) (hl : m.c.isLast = false) {c : Nat}
+    (h : (breakOnEndOfInput inp m).2 = some (.endOfInput c)) :
+    c = consumedByteCount inp m ∧ lexStart (breakOnEndOfInput inp m).1.r = 0 ∧
+      (breakOnEndOfInput inp m).1.c.lastTextType = m.c.lastTextType := by
+  rw [breakOnEndOfInput_eq inp m hl] at h ⊢
+  split at h
+  · cases h
+  · rename_i hu
+    rw [if_neg hu]
+    simp only [Option.some.injEq, Signal.endOfInput.injEq] at h
+    refine ⟨h.symm, ?_, by simp only [adjust_c]⟩
+    simp only
+    unfold adjustForNextInput
+    obtain ⟨cm, r, x⟩ := m
+    cases r with
+    | lexer l => rfl
+    | scanner sc => simp only; split <;> rfl
+
 /-- `break_split`, packaged as a `BreakOut` -/
 theorem breakOut_of_split {fs : FlagMap} {st : StateId} {sd : StateDef} {d0 d : Nat} {sm : SeqMode} {ms mw mw0 : M κ}
     (cx : StepCtx env.tbl fs st sd ms.c) (h : MRel δ d 0 (fs st).2.inStep sm ms mw) (hl : ms.c.isLast = false)
@@ -348,8 +370,8 @@ theorem breakOut_of_split {fs : FlagMap} {st : StateId} {sd : StateDef} {d0 d : 
     (hc0 : mw0.c = { mw.c with nextPos := npw0 }) (hx0 : mw0.x = mw.x) (hr0 : (leaveSeq mw0).r = (leaveSeq mw).r)
     (hq0 : hasSeq sd = false → chSeqOf mw0.r = none)
     (x0 : Ctx κ) (hsim0 : ms.x.sim = x0.sim) (hpc0 : ms.x.prevConsumed = x0.prevConsumed)
-    (hsink : SinkBrk env.ops inpS d0 d x0 ms.x.sink) :
-    BreakOut env.tbl fs env.ops inpS inpW δ d0 x0 mw0 (breakOnEndOfInput inpS ms) := by
+    (hsink : SinkBrk env.ops Loc inpS d0 d x0 ms.x.sink (consumedByteCount inpS ms) ms.c.lastTextType) :
+    BreakOut env.tbl fs env.ops Loc inpS inpW δ d0 x0 mw0 (breakOnEndOfInput inpS ms) := by
   have hsm' : sm ≠ .stale := by
     rcases hsm with h | ⟨h, _⟩ <;> rw [h] <;> intro hh <;> cases hh
   have hout : (if hasSeq sd = true then SeqMode.stale else SeqMode.none) = .stale ∨
@@ -364,8 +386,9 @@ theorem breakOut_of_split {fs : FlagMap} {st : StateId} {sd : StateDef} {d0 d : 
       · rw [hhs] at h'; cases h'
   rcases break_split (inpS := inpS) h rfl hl (fun g => cx.ok.sn2 g) hsm' npw0 hnp hc0 hx0 hr0 _ hout with hp | ⟨c, hsig, hbr, hx, hst, hent, hc1⟩
   · exact Or.inl hp
-  · refine Or.inr ⟨c, d, ms.c.nextPos - 1 + δ - npw0, hsig, ⟨(if hasSeq sd = true then SeqMode.stale else SeqMode.none), ?_, ?_⟩,
-      by rw [hx]; exact hsim0, by rw [hx]; exact hpc0, by rw [hx]; exact hsink⟩
+  · obtain ⟨bf1, bf2, bf3⟩ := break_facts inpS ms hl hsig
+    refine Or.inr ⟨c, d, ms.c.nextPos - 1 + δ - npw0, hsig, ⟨(if hasSeq sd = true then SeqMode.stale else SeqMode.none), ?_, ?_⟩,
+      by rw [hx]; exact hsim0, by rw [hx]; exact hpc0, by rw [hx, bf1, bf3]; exact hsink, bf2⟩
     · rw [cx.flagsOf hst hent]
       rw [Ab.inStep_boundary cx.ok.p2] at hbr
       exact hbr
